@@ -1,0 +1,53 @@
+//! Verification hook (feature `verif`): a thread-local *pass budget* consulted
+//! next to the elapsed-time bail-out of value and degree propagation, so that a
+//! harness can stop propagation after any number of passes (0 = before the
+//! first pass) and observe the result, exactly as the time box would.
+use std::cell::Cell;
+
+thread_local! {
+    static VALUE_BUDGET: Cell<Option<usize>> = const { Cell::new(None) };
+    static DEGREE_BUDGET: Cell<Option<usize>> = const { Cell::new(None) };
+    static VALUE_PASSES: Cell<usize> = const { Cell::new(0) };
+    static DEGREE_PASSES: Cell<usize> = const { Cell::new(0) };
+}
+
+/// Sets the maximum number of passes for value and degree propagation
+/// (`None` = unlimited) for CFGs converted to SSA on this thread.
+pub fn set_budgets(values: Option<usize>, degrees: Option<usize>) {
+    VALUE_BUDGET.with(|b| b.set(values));
+    DEGREE_BUDGET.with(|b| b.set(degrees));
+}
+
+/// Returns the number of (value, degree) passes run by the last SSA conversion
+/// on this thread.
+pub fn passes() -> (usize, usize) {
+    (VALUE_PASSES.with(|p| p.get()), DEGREE_PASSES.with(|p| p.get()))
+}
+
+pub(crate) fn begin_values() -> bool {
+    VALUE_PASSES.with(|p| p.set(0));
+    VALUE_BUDGET.with(|b| b.get()) != Some(0)
+}
+
+pub(crate) fn begin_degrees() -> bool {
+    DEGREE_PASSES.with(|p| p.set(0));
+    DEGREE_BUDGET.with(|b| b.get()) != Some(0)
+}
+
+/// Records one completed pass. Returns false if the budget is used up.
+pub(crate) fn value_pass_done() -> bool {
+    let done = VALUE_PASSES.with(|p| {
+        p.set(p.get() + 1);
+        p.get()
+    });
+    VALUE_BUDGET.with(|b| b.get()).map(|budget| done < budget).unwrap_or(true)
+}
+
+/// Records one completed pass. Returns false if the budget is used up.
+pub(crate) fn degree_pass_done() -> bool {
+    let done = DEGREE_PASSES.with(|p| {
+        p.set(p.get() + 1);
+        p.get()
+    });
+    DEGREE_BUDGET.with(|b| b.get()).map(|budget| done < budget).unwrap_or(true)
+}
